@@ -62,7 +62,7 @@ thm_roundtrip2.domain = {"x": (-7e6, 7e6), "y": (-7e6, 7e6), "z": (-7e6, 7e6)}
 # ------------------------------------------------------------------ geodetic -> cartesian, radii of the ellipsoid
 ELL = lambda ctx, n: (ctx.fresh("a", "real"), ctx.fresh("e", "real"))
 c_gd2c = contract(GM + "geodetic2cart", prop=P, params=dict(h="real", lat="real", lon="real", ellipsoid=ELL), result=("tuple", 3),
-                  pure=False,
+                  pure=False, elementwise=True,
                   requires=["ellipsoid[0] > 0", "0 <= ellipsoid[1]", "ellipsoid[1] < 1"],
                   ensures=["result[0] == (ellipsoid[0] / sqrt(1 - ellipsoid[1]**2 * sin(lat * %s)**2) + h) * cos(lat * %s) * cos(lon * %s)" % (RAD, RAD, RAD),
                            "result[1] == (ellipsoid[0] / sqrt(1 - ellipsoid[1]**2 * sin(lat * %s)**2) + h) * cos(lat * %s) * sin(lon * %s)" % (RAD, RAD, RAD),
